@@ -68,6 +68,15 @@ def clear_inv(p):
     return num, den
 
 
+def opt_num(v):
+    """the number held by a plain field or by `Some(x)`; None for `None` / anything else"""
+    if isinstance(v, Num):
+        return v
+    if isinstance(v, EnumV) and v.variant == 1 and isinstance(v.payload.get(1), list) and v.payload[1] and isinstance(v.payload[1][0], Num):
+        return v.payload[1][0]
+    return None
+
+
 class Gl:
     def __init__(self, facts):
         self.facts = facts
@@ -85,7 +94,15 @@ class Gl:
         res.absorb(it)
         return it, outs, S
 
-    def processor(self, it, st, template):
+    def cached_kinds(self, template):
+        """the time in effect is held as a plain f32 (with a sentinel) or as an `Option<f32>` (`None` = no time yet): the second
+        representation adds the pre-state 'nothing in effect yet' to every partition"""
+        v = template.get('cached_t') if template.has('cached_t') else None
+        if isinstance(v, EnumV) and v.path.startswith('core::option::Option'):
+            return ('some', 'none')
+        return ('plain',)
+
+    def processor(self, it, st, template, cached='plain'):
         """abstract GlideProcessor satisfying the invariant established by new(): limits/fs as in the template,
         filter state and cached_t arbitrary, coefficients arbitrary"""
         gp = copy.deepcopy(template)
@@ -99,7 +116,13 @@ class Gl:
         co = lpf.get('coeffs')
         for n in co.names:
             co.set(n, float_sym(st, 'coef.' + n))
-        gp.set('cached_t', float_sym(st, 'cached_t'))
+        if isinstance(gp.get('cached_t'), EnumV) and gp.get('cached_t').path.startswith('core::option::Option'):
+            if cached == 'none':
+                gp.set('cached_t', EnumV('core::option::Option', 0, {0: []}, vnames=['None', 'Some'], targs=gp.get('cached_t').targs))
+            else:
+                gp.set('cached_t', EnumV('core::option::Option', 1, {1: [float_sym(st, 'cached_t')]}, vnames=['None', 'Some'], targs=gp.get('cached_t').targs))
+        else:
+            gp.set('cached_t', float_sym(st, 'cached_t'))
         # private state added later (flags, caches, counters) is arbitrary in a reachable pre-state: never the constructor's value
         adt = self.facts.adt(GP)
         located = set((adt.get('canon_paths') or {}).values() and [p[0] for p in adt['canon_paths'].values()])
@@ -235,10 +258,14 @@ def check_glide(res, facts, prop):
     if prop == 'C14':
         # the dead-band reference of a fresh processor: either a sentinel that no t >= 0 is close to (the first call is always
         # honoured), or the time whose design the constructor actually installed
-        ct0 = tmpl.get('cached_t').term if tmpl.has('cached_t') else None
+        cv0 = tmpl.get('cached_t') if tmpl.has('cached_t') else None
+        ct0 = opt_num(cv0).term if opt_num(cv0) is not None else None
         c0 = ct0.const_value() if ct0 is not None else None
-        ok0, why0 = False, 'cached_t after new() = %r' % (ct0,)
-        if ct0 is not None and ct0.inf_sign() == -1:
+        ok0, why0 = False, 'cached_t after new() = %r' % (cv0,)
+        if isinstance(cv0, EnumV) and cv0.variant == 0 and cv0.path.startswith('core::option::Option'):
+            # no time in effect yet: what a first call does from this state is decided by the `None` pre-state of every partition below
+            ok0, why0 = True, 'None: no time in effect'
+        elif ct0 is not None and ct0.inf_sign() == -1:
             ok0, why0 = True, 'sentinel -inf'
         elif c0 is not None and c0 < -DEAD:
             ok0, why0 = True, 'sentinel %s: every t >= 0 is further than the dead band' % float(c0)
@@ -264,16 +291,18 @@ def check_glide(res, facts, prop):
     where = where_of(facts, GP + '::set_time')
     n = 0
     n_honoured = 0
-    for pi in range(N_PARTS):
+    for pi, ckind in [(pi_, ck_) for pi_ in range(N_PARTS) for ck_ in gl.cached_kinds(tmpl)]:
         it = Interp(facts)
         st = State()
         st.ctx = ctx0.copy()
         try:
-            gp = gl.processor(it, st, tmpl)
+            gp = gl.processor(it, st, tmpl, cached=ckind)
         except InterpError as e:
             res.ob('R-GLIDE', 'set_time', False, str(e), where, key='R-GLIDE:structure')
             return
         pname, tterm, facts_ = time_partitions(st, S.term, umax, min_fc)[pi]
+        if ckind == 'none':
+            pname += '|no time in effect'
         for f in facts_:
             st.ctx.assume(f)
         pre = copy.deepcopy(gp)
@@ -284,28 +313,33 @@ def check_glide(res, facts, prop):
             res.ob('R-GLIDE', 'set_time|' + pname, False, 'analysis failed: %s' % e, where)
             continue
         res.absorb(it)
-        cached = pre.get('cached_t').term
+        cached_n = opt_num(pre.get('cached_t'))
+        cached = cached_n.term if cached_n is not None else None
+        pname_full, pname = pname, pname.split('|')[0]
         for o in sem_iter(outs):
             n += 1
-            inst = 'set_time|' + pname
+            inst = 'set_time|' + pname_full
             if o.status != 'returned':
                 res.ob('R-GLIDE' if prop == 'C13' else 'R-DEADBAND', inst, False, 'path ends with %s: %s' % (o.status, o.panic_info), where, key='R-GLIDE:%s:%s' % (inst, o.status))
                 continue
             post = o.cells[cell]
             ch = set(spec_fields_changed(pre, post, GP_FIELDS))
-            within_a = o.ctx.decide(cmp_term('Le', tterm - cached, DEAD))
-            within_b = o.ctx.decide(cmp_term('Le', cached - tterm, DEAD))
+            if cached is None:
+                within_a = within_b = False      # nothing in effect: no request is "close to the time in effect"
+            else:
+                within_a = o.ctx.decide(cmp_term('Le', tterm - cached, DEAD))
+                within_b = o.ctx.decide(cmp_term('Le', cached - tterm, DEAD))
             honoured = any(c.startswith('lpf.coeffs') for c in ch)
             if prop == 'C14':
                 if not honoured:
                     res.ob('R-DEADBAND', inst + '|ignored only within the dead band', within_a is True and within_b is True,
-                           'call ignored on a path where |t - cached_t| <= 0.05 is not implied (t-cached<=0.05: %s, cached-t<=0.05: %s)' % (within_a, within_b), where, key='R-DEADBAND:ignored:' + pname)
-                    res.ob('R-DEADBAND', inst + '|ignored call writes nothing', not ch, 'ignored call changes %s (the dead-band reference must stay the time in effect)' % sorted(ch), where, key='R-DEADBAND:ignored-writes:' + pname)
+                           'call ignored on a path where |t - cached_t| <= 0.05 is not implied (t-cached<=0.05: %s, cached-t<=0.05: %s)' % (within_a, within_b), where, key='R-DEADBAND:ignored:' + pname_full)
+                    res.ob('R-DEADBAND', inst + '|ignored call writes nothing', not ch, 'ignored call changes %s (the dead-band reference must stay the time in effect)' % sorted(ch), where, key='R-DEADBAND:ignored-writes:' + pname_full)
                 else:
                     res.ob('R-DEADBAND', inst + '|honoured only outside the dead band', within_a is False or within_b is False,
-                           'coefficients recomputed on a path that does not exclude |t - cached_t| <= 0.05', where, key='R-DEADBAND:honoured:' + pname)
-                    res.ob('R-DEADBAND', inst + '|cached_t := t together with the coefficients', same(post.get('cached_t'), tval),
-                           'cached_t after an honoured call = %r, expected t' % (post.get('cached_t'),), where, key='R-DEADBAND:cached:' + pname)
+                           'coefficients recomputed on a path that does not exclude |t - cached_t| <= 0.05', where, key='R-DEADBAND:honoured:' + pname_full)
+                    res.ob('R-DEADBAND', inst + '|cached_t := t together with the coefficients', same(opt_num(post.get('cached_t')), tval),
+                           'cached_t after an honoured call = %r, expected t' % (post.get('cached_t'),), where, key='R-DEADBAND:cached:' + pname_full)
             if honoured:
                 n_honoured += 1
                 lpf1 = find_lpf(post)
@@ -313,7 +347,7 @@ def check_glide(res, facts, prop):
                 state_ch = [c for c in ch if c.startswith('lpf.') and not c.startswith('lpf.coeffs')]
                 other = [c for c in ch if not c.startswith('lpf.') and c != 'cached_t']
                 if prop == 'C13':
-                    res.ob('R-GLIDE', inst + '|set_time only replaces coefficients', not state_ch and not other, 'also changes %s' % sorted(state_ch + other), where, key='R-GLIDE:state:' + pname)
+                    res.ob('R-GLIDE', inst + '|set_time only replaces coefficients', not state_ch and not other, 'also changes %s' % sorted(state_ch + other), where, key='R-GLIDE:state:' + pname_full)
                     coefficient_obligations(res, inst, co, o.ctx, where)
                 else:
                     # cutoff selection: f0 = clamp(1/t, 0.1, max_fc) shows in the design argument W = tan(pi*f0/fs)
@@ -329,9 +363,9 @@ def check_glide(res, facts, prop):
                         nb1, d2 = clear_inv(co.get('b1').term)
                         shape = na1 == Wt - 1 and nb0 == Wt and nb1 == Wt and d1 == Wt + 1 and d0 == Wt + 1 and d2 == Wt + 1
                         res.ob('R-RESPONSE', inst + '|single-pole shape a1=(W-1)/(1+W), b0=b1=W/(1+W)', shape,
-                               'a1 = (%r)/(%r), b0 = (%r)/(%r)' % (na1, d1, nb0, d0), where, key='R-RESPONSE:shape:' + pname)
+                               'a1 = (%r)/(%r), b0 = (%r)/(%r)' % (na1, d1, nb0, d0), where, key='R-RESPONSE:shape:' + pname_full)
                     res.ob('R-DEADBAND', inst + '|cutoff = clamp(1/t, 0.1 Hz, max_fc)', ok,
-                           'design argument(s) %s; expected tan(pi*f0/fs) with pi*f0/fs = %r' % ([repr(a[1]) for a in tans], want), where, key='R-DEADBAND:cutoff:' + pname)
+                           'design argument(s) %s; expected tan(pi*f0/fs) with pi*f0/fs = %r' % ([repr(a[1]) for a in tans], want), where, key='R-DEADBAND:cutoff:' + pname_full)
     if prop == 'C14':
         response_lemma(res)
     res.floor('set_time_outcomes', n, 12)
